@@ -26,7 +26,7 @@ ID = "C17"
 LEVEL = "model_checking"
 ENGINE = "E2 parse-history enumeration in forked pristine images + E4 preemption-bounded thread schedules"
 RULE = (
-    "E2: every sequence of <= D parses over a 14-text corpus, each sequence in a process forked from a pristine parent, every "
+    "E2: every sequence of <= D parses over a 16-text corpus, each sequence in a process forked from a pristine parent, every "
     "parse compared with the fresh-interpreter baseline of its text. E4: ordered pairs of corpus texts x {pristine, warm process image} "
     "x both start orders x EVERY switch point (preemption bound 1; thorough adds opcode granularity and bound 2 at call "
     "granularity); distinct = distinct history or distinct (pair, configuration, schedule); non-trivial = history of >= 2 parses "
@@ -63,6 +63,9 @@ CORPUS = {
     # a [Song] section that repeats a key; its second "Difficulty" line sits on the line index where meta-a has
     # its (only) one, its second "Offset" where meta-b has none: a per-field position hint shows in [meta-a, meta-dup]
     "meta-dup": (mk(res=12, song_extra=["Difficulty = 1", "Offset = 9", "Difficulty = 2", "Offset = 4", 'Name = "n1"', 'Name = "n2"'], sync=SYNC, events=EV, tracks={"ExpertSingle": T_S}), None),
+    # one string, two kinds: 'E "x"' is a text event in [Events] (shared-a) and a track event in a track (shared-b)
+    "shared-a": (mk(res=12, sync=SYNC, events=['5 = E "x"', '6 = E "section s"'], tracks={"ExpertSingle": T_S}), None),
+    "shared-b": (mk(res=12, sync=SYNC, events=['6 = E "section s"'], tracks={"ExpertSingle": T_S + ['5 = E "x"', "0 = TS 4"]}), None),
     # fails inside the note loop of its SECOND track after two notes were built (unsorted over a tempo change)
     "fail-mid-track": (mk(res=100, sync=SYNC, events=EV, tracks=[("ExpertSingle", T_A), ("HardSingle", ["0 = N 0 0", "8 = N 1 0", "4 = N 2 0"])]), None),
 }
